@@ -456,6 +456,49 @@ impl Exp {
     }
 }
 
+impl Exp {
+    /// Renders the expression as the left or right operand of `parent`, adding
+    /// the parentheses that are needed for the text to parse back to the same
+    /// tree: around operands that bind less tightly, around an operand of equal
+    /// precedence on the side where `parent` does not associate
+    /// (`a - (b - c)`, `a / (b * c)`), and around logic operands.
+    fn to_string_as_operand(&self, parent: BinOp, is_right: bool) -> String {
+        let needs_parentheses = match self {
+            Exp::BinOp(op, _, _) => {
+                let precedence = op.precedence();
+                let parent_precedence = parent.precedence();
+                if precedence != parent_precedence {
+                    precedence < parent_precedence
+                } else if is_right {
+                    //only a chain of the same associative operator may drop them
+                    !(*op == parent
+                        && matches!(
+                            parent,
+                            BinOp::Add | BinOp::Mul | BinOp::And | BinOp::Or | BinOp::Xor
+                        ))
+                } else {
+                    !parent.is_left_associative() || !op.is_left_associative()
+                }
+            }
+            Exp::And(_) | Exp::Or(_) | Exp::Xor(_, _) | Exp::Implies(_, _) | Exp::Iff(_, _) => {
+                true
+            }
+            Exp::Not(_) => true,
+            Exp::Number(_)
+            | Exp::Variable(_)
+            | Exp::Abs(_)
+            | Exp::Min(_)
+            | Exp::Max(_)
+            | Exp::UnOp(_, _) => false,
+        };
+        if needs_parentheses {
+            format!("({})", self)
+        } else {
+            self.to_string()
+        }
+    }
+}
+
 /// Whether a constant number counts as true, everything except zero does.
 fn num_truthy(value: f64) -> bool {
     value != 0.0
@@ -570,13 +613,16 @@ impl fmt::Display for Exp {
                     .join(", ")
             ),
             Exp::BinOp(operator, lhs, rhs) => {
-                //TODO: add parenthesis when needed
-                let string_lhs = lhs.to_string_with_precedence(*operator);
-                let string_rhs = rhs.to_string_with_precedence(*operator);
+                let string_lhs = lhs.to_string_as_operand(*operator, false);
+                let string_rhs = rhs.to_string_as_operand(*operator, true);
                 format!("{} {} {}", string_lhs, operator, string_rhs)
             }
             Exp::UnOp(op, exp) => {
-                if exp.is_leaf() {
+                //a negative literal already starts with a sign, and the grammar
+                //accepts a single prefix operator per operand
+                let signed_literal =
+                    matches!(**exp, Exp::Number(value) if value.is_sign_negative());
+                if exp.is_leaf() && !signed_literal {
                     format!("{}{}", op, exp)
                 } else {
                     format!("{}({})", op, exp)
